@@ -78,12 +78,17 @@ class Type(Scope):
     def get_overridden(self, field_name):
         ret_list = []
         field_name = field_name.lower()
-        for child in self.children:
-            if field_name == child.name.lower():
-                ret_list.append(child)
-                break
-        if self.inherit_var is not None:
-            ret_list += self.inherit_var.get_overridden(field_name)
+        # Walk up the inheritance chain; types that (directly or not) extend
+        # themselves must not be visited twice
+        visited = []
+        type_obj = self
+        while isinstance(type_obj, Type) and not any(type_obj is t for t in visited):
+            visited.append(type_obj)
+            for child in type_obj.children:
+                if field_name == child.name.lower():
+                    ret_list.append(child)
+                    break
+            type_obj = type_obj.inherit_var
         return ret_list
 
     def check_valid_parent(self):
